@@ -161,6 +161,7 @@ type Engine struct {
 	keepTimers  bool
 	jsonHavoc   func(e *Engine, fr *frame, data Slice, dst Iface) Value
 	syncMaps    map[*Backing]map[int]*MapObj
+	pools       map[*Backing][]Value // sync.Pool contents (LIFO reuse)
 	initWarn    []string
 	shared      map[*Backing]bool
 }
@@ -739,6 +740,7 @@ func (e *Engine) RunPath(entry *ssa.Function, item WorkItem) (res *PathResult) {
 	e.usedClock = false
 	e.randInts = 0
 	e.syncMaps = nil
+	e.pools = nil
 	e.gzWriters, e.gzReaders, e.gzSpin = nil, nil, 0
 	e.shared = map[*Backing]bool{}
 	e.harness = entry.Name()
